@@ -12,7 +12,10 @@ output: per op, `;`-joined:
   A value operation that panics prints `panic`.
 Cross-check on every L/U/T/R: `abs` of the stage-2 state after the op must equal the stage-1 model (Model/Engine.lean) run on
 `abs` of the state before it, replies included — skipped where stage 1 cannot know (the op carries a value frame; a tick off-leader
-while a journalled hold exists). A difference appends ` ABS-MISMATCH` to that op's output.
+while a journalled hold exists). One decision is taken over from stage 2 because it reads the value cell, which stage 1 does not
+have: whether an UPDATE_WHEN_LOCKED request that carries the CONTAINS_DATA flag (but no frame) with terms equal to the hold's is
+answered without touching the hold (only if the key's value is journalled and no pipeline is pending) or replaces the hold's
+command; the state and reply of whichever branch that is are still compared. A difference appends ` ABS-MISMATCH` to that op's output.
 -/
 namespace Driver
 open Slock.Engine2
@@ -66,7 +69,13 @@ def crossCheck (pre : DB) (post : DB) (rs : List Reply) (o : Op) : Bool :=
   if skip || post.panicked then true
   else
     let r1 : Slock.Engine.DB × List Slock.Engine.Reply := match o with
-      | .lock c _ => Slock.Engine.opLock a c
+      | .lock c d =>
+        if Slock.Engine.has c.flag Slock.Engine.F_UPDATE && Slock.Engine.has c.flag F_DATA then
+          match Slock.Engine2.classifyLock pre c d, Slock.Engine.classifyLock a c with
+          | .update _, .updateEqual h => Slock.Engine.applyLock a c (.update h)
+          | .updateEqualData _, .update h => Slock.Engine.applyLock a c (.updateEqual h)
+          | _, b => Slock.Engine.applyLock a c b
+        else Slock.Engine.opLock a c
       | .unlock c _ => Slock.Engine.opUnlock a { c with mgr := pre.hasKey c.key }
       | .tick => Slock.Engine.opTick a
       | .setLeader b => ({ a with leader := b }, [])
